@@ -402,12 +402,21 @@ def gen_adaptive_cases(tier, rng):
 
 # ----------------------------------------------------------------------------- implementation side
 
+_STRAT_CACHE: dict = {}
+
+
 def run_impl(c) -> None:
     k = c["kind"]
     if k in ("equal_jitter", "token_backoff"):
         DRAW.u = c["u"]
         maker = S.equal_jitter if k == "equal_jitter" else S.token_backoff
-        f = maker(c["base"], c["max"])
+        # ONE strategy object per (kind, base, max) serves all the evaluations of a run, in whatever order the
+        # attempts come (a policy reuses its strategy for every operation): the strategies are pure functions of
+        # their arguments and the draw, nothing may be remembered between calls
+        key = (k, c["base"], c["max"])
+        f = _STRAT_CACHE.get(key)
+        if f is None:
+            f = _STRAT_CACHE[key] = maker(c["base"], c["max"])
         if c["via"] == "normalize":
             g = S._normalize_strategy(f)
             c["impl"] = call(lambda: g(ctx_for(attempt=c["attempt"])))
@@ -423,7 +432,10 @@ def run_impl(c) -> None:
             c["prod_inf"] = False
     elif k == "decorrelated":
         DRAW.u = c["u"]
-        f = S.decorrelated_jitter(c["base"], c["max"])
+        key = ("decorrelated", c["base"], c["max"])
+        f = _STRAT_CACHE.get(key)
+        if f is None:
+            f = _STRAT_CACHE[key] = S.decorrelated_jitter(c["base"], c["max"])
         if c["via"] == "normalize":
             g = S._normalize_strategy(f)
             c["impl"] = call(lambda: g(ctx_for(attempt=3, prev=c["prev"])))
